@@ -5,7 +5,8 @@
    for the key is c:  Some b = it returned b,  None = evaluating it raised (so __call__ returns None).
    [fold] stands for Python's  normalize("NFKD", s.casefold())  and is arbitrary in every theorem. *)
 From Coq Require Import List Bool NArith ZArith.
-From PV Require Import Base.Str Base.Value Glob.Glob Run.RState Iam.IpNet Iam.Ops Iam.OpNames Iam.OpsFacts Iam.OpTable.
+From PV Require Import Base.Str Base.Value Glob.Glob Run.RState Iam.IpNet Iam.Ops Iam.OpNames Iam.OpsFacts Iam.OpTable
+  Iam.OpsAlgebra.
 From PVGen Require Import Operators.
 Import ListNotations.
 
@@ -192,3 +193,593 @@ Proof. repeat split; vm_compute; reflexivity. Qed.
 Example C11_ex_like_case_sensitive : op_test id_fold OStringLike (CStr [97; 42]) (CStr [65; 98]) = Some false
                                      /\ op_test id_fold OStringNotLike (CStr [97; 46; 99]) (CStr [97; 98; 99]) = Some true.
 Proof. repeat split; vm_compute; reflexivity. Qed.
+
+(* ====================================================================================================================
+   ORDER / EQUIVALENCE THEORY of the single operators (Iam/OpsAlgebra.v), for ALL values.
+   Throughout:  op_test fold o p c  with  p = the POLICY value, c = the REQUEST value (kwargs[key]); the code evaluates
+   `kwargs[key] <cmp> policy`, so {"NumericLessThan": {key: p}} holds on a request iff request[key] < p.
+   [comparable c p]: two numbers (a bool is the number 0/1), or two datetimes both aware or both naive. *)
+
+(* ---- numbers *)
+
+(* ARGUMENT ORDER: x = the request value, y = the policy value *)
+Theorem C11_numeric_argument_order :
+  forall (fold : str -> str) (p c : cval) (x y : Z), as_int c = Some x -> as_int p = Some y ->
+    (op_test fold ONumericEquals p c = Some true <-> x = y) /\
+    (op_test fold ONumericNotEquals p c = Some true <-> x <> y) /\
+    (op_test fold ONumericLessThan p c = Some true <-> (x < y)%Z) /\
+    (op_test fold ONumericLessThanEquals p c = Some true <-> (x <= y)%Z) /\
+    (op_test fold ONumericGreaterThan p c = Some true <-> (x > y)%Z) /\
+    (op_test fold ONumericGreaterThanEquals p c = Some true <-> (x >= y)%Z).
+Proof. exact numeric_argument_order. Qed.
+Print Assumptions C11_numeric_argument_order.
+
+(* the same as VALUES: on two numbers every Numeric operator answers, with the comparison of Z *)
+Theorem C11_numeric_values :
+  forall (fold : str -> str) (p c : cval) (x y : Z), as_int c = Some x -> as_int p = Some y ->
+    op_test fold ONumericEquals p c = Some (x =? y)%Z /\
+    op_test fold ONumericNotEquals p c = Some (negb (x =? y)%Z) /\
+    op_test fold ONumericLessThan p c = Some (x <? y)%Z /\
+    op_test fold ONumericLessThanEquals p c = Some (x <=? y)%Z /\
+    op_test fold ONumericGreaterThan p c = Some (y <? x)%Z /\
+    op_test fold ONumericGreaterThanEquals p c = Some (y <=? x)%Z.
+Proof. exact numeric_values. Qed.
+Print Assumptions C11_numeric_values.
+Example C11_ex_numeric_argument_order :
+  as_int (CInt 4) = Some 4%Z /\ as_int (CBool true) = Some 1%Z
+  /\ op_test id_fold ONumericLessThan (CInt 5) (CInt 4) = Some true        (* request 4 < policy 5 *)
+  /\ op_test id_fold ONumericLessThan (CInt 4) (CInt 5) = Some false       (* request 5 < policy 4: no *)
+  /\ op_test id_fold ONumericGreaterThan (CInt 4) (CInt 5) = Some true
+  /\ op_test id_fold ONumericEquals (CInt 1) (CBool true) = Some true      (* True == 1 *)
+  /\ op_test id_fold ONumericLessThan (CInt 2) (CBool true) = Some true.   (* True < 2 *)
+Proof. repeat split; vm_compute; reflexivity. Qed.
+
+(* TRICHOTOMY: on two numbers exactly one of LessThan, Equals, GreaterThan holds *)
+Theorem C11_numeric_trichotomy :
+  forall (fold : str -> str) (p c : cval), (exists x y, as_int c = Some x /\ as_int p = Some y) ->
+    (op_test fold ONumericLessThan p c = Some true /\ op_test fold ONumericEquals p c = Some false
+       /\ op_test fold ONumericGreaterThan p c = Some false) \/
+    (op_test fold ONumericLessThan p c = Some false /\ op_test fold ONumericEquals p c = Some true
+       /\ op_test fold ONumericGreaterThan p c = Some false) \/
+    (op_test fold ONumericLessThan p c = Some false /\ op_test fold ONumericEquals p c = Some false
+       /\ op_test fold ONumericGreaterThan p c = Some true).
+Proof. exact numeric_trichotomy. Qed.
+Print Assumptions C11_numeric_trichotomy.
+Example C11_ex_numeric_trichotomy :
+  (exists x y, as_int (CInt 4) = Some x /\ as_int (CInt 5) = Some y)
+  /\ (op_test id_fold ONumericLessThan (CInt 5) (CInt 4), op_test id_fold ONumericEquals (CInt 5) (CInt 4),
+      op_test id_fold ONumericGreaterThan (CInt 5) (CInt 4)) = (Some true, Some false, Some false)
+  /\ (op_test id_fold ONumericLessThan (CInt 5) (CInt 5), op_test id_fold ONumericEquals (CInt 5) (CInt 5),
+      op_test id_fold ONumericGreaterThan (CInt 5) (CInt 5)) = (Some false, Some true, Some false)
+  /\ (op_test id_fold ONumericLessThan (CInt 5) (CInt 6), op_test id_fold ONumericEquals (CInt 5) (CInt 6),
+      op_test id_fold ONumericGreaterThan (CInt 5) (CInt 6)) = (Some false, Some false, Some true).
+Proof. split; [exists 4%Z, 5%Z; split; reflexivity|]. repeat split; vm_compute; reflexivity. Qed.
+
+(* THE ORDER LAWS, for ALL operands (an identity holds with both sides undefined together; "= Some true" already
+   forces comparability):  LessThanEquals = LessThan or Equals;  GreaterThanEquals = GreaterThan or Equals = not LessThan;
+   GreaterThan = not LessThanEquals;  NotEquals = not Equals;  converse (exchanging policy and request value turns
+   LessThan into GreaterThan);  transitivity (the middle value b is once the policy, once the request value);
+   antisymmetry (mutual <= is Equals -- not identity: True and 1);  irreflexivity, asymmetry;  totality and
+   reflexivity on comparable operands *)
+Theorem C11_numeric_order_laws :
+  forall (fold : str -> str),
+    let T := op_test fold in
+    (forall p c, T ONumericLessThanEquals p c = lift2 orb (T ONumericLessThan p c) (T ONumericEquals p c)) /\
+    (forall p c, T ONumericGreaterThanEquals p c = lift2 orb (T ONumericGreaterThan p c) (T ONumericEquals p c)) /\
+    (forall p c, T ONumericGreaterThanEquals p c = option_map negb (T ONumericLessThan p c)) /\
+    (forall p c, T ONumericGreaterThan p c = option_map negb (T ONumericLessThanEquals p c)) /\
+    (forall p c, T ONumericNotEquals p c = option_map negb (T ONumericEquals p c)) /\
+    (forall p c, T ONumericLessThan p c = T ONumericGreaterThan c p
+                 /\ T ONumericLessThanEquals p c = T ONumericGreaterThanEquals c p) /\
+    (forall a b c, T ONumericLessThan b a = Some true -> T ONumericLessThan c b = Some true ->
+                   T ONumericLessThan c a = Some true) /\
+    (forall a b c, T ONumericLessThanEquals b a = Some true -> T ONumericLessThanEquals c b = Some true ->
+                   T ONumericLessThanEquals c a = Some true) /\
+    (forall a b c, T ONumericLessThan b a = Some true -> T ONumericLessThanEquals c b = Some true ->
+                   T ONumericLessThan c a = Some true) /\
+    (forall a b c, T ONumericLessThanEquals b a = Some true -> T ONumericLessThan c b = Some true ->
+                   T ONumericLessThan c a = Some true) /\
+    (forall a b, T ONumericLessThanEquals b a = Some true -> T ONumericLessThanEquals a b = Some true ->
+                 T ONumericEquals b a = Some true) /\
+    (forall a, T ONumericLessThan a a <> Some true) /\
+    (forall a b, T ONumericLessThan b a = Some true -> T ONumericLessThan a b = Some false) /\
+    (forall a b, comparable a b -> T ONumericLessThanEquals b a = Some true \/ T ONumericLessThanEquals a b = Some true) /\
+    (forall a, comparable a a -> T ONumericLessThanEquals a a = Some true /\ T ONumericEquals a a = Some true).
+Proof. intros fold. exact (ord_laws fold ONum). Qed.
+Print Assumptions C11_numeric_order_laws.
+Example C11_ex_numeric_order_laws :
+  (* transitivity: 4 < 5 and 5 < 7 *)
+  op_test id_fold ONumericLessThan (CInt 5) (CInt 4) = Some true /\ op_test id_fold ONumericLessThan (CInt 7) (CInt 5) = Some true
+  (* antisymmetry meets two DIFFERENT values: True <= 1 and 1 <= True *)
+  /\ op_test id_fold ONumericLessThanEquals (CInt 1) (CBool true) = Some true
+  /\ op_test id_fold ONumericLessThanEquals (CBool true) (CInt 1) = Some true /\ CBool true <> CInt 1
+  /\ comparable (CInt 4) (CBool false)
+  (* both sides of an identity undefined together: "4" against 5, and a missing key *)
+  /\ op_test id_fold ONumericLessThanEquals (CInt 5) (CStr [52]) = None
+  /\ lift2 orb (op_test id_fold ONumericLessThan (CInt 5) (CStr [52])) (op_test id_fold ONumericEquals (CInt 5) (CStr [52])) = None
+  /\ op_test id_fold ONumericGreaterThanEquals (CInt 5) CAbsent = None.
+Proof.
+  repeat split; try (vm_compute; reflexivity); try discriminate.
+  left. exists 4%Z, 0%Z. split; reflexivity.
+Qed.
+
+(* on two operands of the operator's own type antisymmetry gives the SAME value *)
+Theorem C11_numeric_antisymmetric_typed :
+  forall (fold : str -> str) (a b : cval), has_fam FInt a = true -> has_fam FInt b = true ->
+    op_test fold ONumericLessThanEquals b a = Some true -> op_test fold ONumericLessThanEquals a b = Some true -> a = b.
+Proof. intros fold. exact (ord_le_antisym_typed fold ONum). Qed.
+Print Assumptions C11_numeric_antisymmetric_typed.
+Example C11_ex_numeric_antisymmetric_typed :
+  has_fam FInt (CInt 5) = true /\ op_test id_fold ONumericLessThanEquals (CInt 5) (CInt 5) = Some true.
+Proof. split; vm_compute; reflexivity. Qed.
+
+(* the orderings are defined EXACTLY on comparable operands; otherwise the four orderings are undefined and Equals
+   against an orderable policy value is plainly False *)
+Theorem C11_order_defined_iff_comparable :
+  forall (fold : str -> str) (p c : cval),
+    (op_test fold ONumericLessThan p c <> None <-> comparable c p) /\
+    (op_test fold ONumericLessThanEquals p c <> None <-> comparable c p) /\
+    (op_test fold ONumericGreaterThan p c <> None <-> comparable c p) /\
+    (op_test fold ONumericGreaterThanEquals p c <> None <-> comparable c p).
+Proof. intros fold. exact (ord_defined_iff fold ONum). Qed.
+Print Assumptions C11_order_defined_iff_comparable.
+Theorem C11_order_incomparable :
+  forall (fold : str -> str) (p c : cval), ~ comparable c p ->
+    op_test fold ONumericLessThan p c = None /\ op_test fold ONumericLessThanEquals p c = None /\
+    op_test fold ONumericGreaterThan p c = None /\ op_test fold ONumericGreaterThanEquals p c = None /\
+    (comparable p p -> c <> CAbsent ->
+       op_test fold ONumericEquals p c = Some false /\ op_test fold ONumericNotEquals p c = Some true).
+Proof. intros fold. exact (ord_incomparable fold ONum). Qed.
+Print Assumptions C11_order_incomparable.
+Example C11_ex_order_incomparable :
+  ~ comparable (CStr [52]) (CInt 5) /\ comparable (CInt 5) (CInt 5) /\ CStr [52] <> CAbsent
+  /\ op_test id_fold ONumericEquals (CInt 5) (CStr [52]) = Some false.
+Proof.
+  split; [|split; [|split]].
+  - intros [(x & y & H & _)|(a & x & y & H & _)]; discriminate.
+  - left. exists 5%Z, 5%Z. split; reflexivity.
+  - discriminate.
+  - vm_compute. reflexivity.
+Qed.
+
+(* ---- dates *)
+
+(* the Date operators are the SAME functions of their operands as the Numeric ones (one lambda for both in the code) *)
+Theorem C11_numeric_date_same_functions :
+  forall (fold : str -> str) (p c : cval),
+    op_test fold ONumericEquals p c = op_test fold ODateEquals p c /\
+    op_test fold ONumericNotEquals p c = op_test fold ODateNotEquals p c /\
+    op_test fold ONumericLessThan p c = op_test fold ODateLessThan p c /\
+    op_test fold ONumericLessThanEquals p c = op_test fold ODateLessThanEquals p c /\
+    op_test fold ONumericGreaterThan p c = op_test fold ODateGreaterThan p c /\
+    op_test fold ONumericGreaterThanEquals p c = op_test fold ODateGreaterThanEquals p c.
+Proof. exact ord_families_coincide. Qed.
+Print Assumptions C11_numeric_date_same_functions.
+
+(* ARGUMENT ORDER on instants (microseconds): x = the request instant, y = the policy instant; both aware or both naive *)
+Theorem C11_date_argument_order :
+  forall (fold : str -> str) (aware : bool) (x y : Z),
+    op_test fold ODateEquals (CDate aware y) (CDate aware x) = Some (x =? y)%Z /\
+    op_test fold ODateNotEquals (CDate aware y) (CDate aware x) = Some (negb (x =? y)%Z) /\
+    op_test fold ODateLessThan (CDate aware y) (CDate aware x) = Some (x <? y)%Z /\
+    op_test fold ODateLessThanEquals (CDate aware y) (CDate aware x) = Some (x <=? y)%Z /\
+    op_test fold ODateGreaterThan (CDate aware y) (CDate aware x) = Some (y <? x)%Z /\
+    op_test fold ODateGreaterThanEquals (CDate aware y) (CDate aware x) = Some (y <=? x)%Z.
+Proof. exact date_argument_order. Qed.
+Print Assumptions C11_date_argument_order.
+
+Theorem C11_date_trichotomy :
+  forall (fold : str -> str) (p c : cval), (exists a x y, c = CDate a x /\ p = CDate a y) ->
+    (op_test fold ODateLessThan p c = Some true /\ op_test fold ODateEquals p c = Some false
+       /\ op_test fold ODateGreaterThan p c = Some false) \/
+    (op_test fold ODateLessThan p c = Some false /\ op_test fold ODateEquals p c = Some true
+       /\ op_test fold ODateGreaterThan p c = Some false) \/
+    (op_test fold ODateLessThan p c = Some false /\ op_test fold ODateEquals p c = Some false
+       /\ op_test fold ODateGreaterThan p c = Some true).
+Proof. exact date_trichotomy. Qed.
+Print Assumptions C11_date_trichotomy.
+
+Theorem C11_date_order_laws :
+  forall (fold : str -> str),
+    let T := op_test fold in
+    (forall p c, T ODateLessThanEquals p c = lift2 orb (T ODateLessThan p c) (T ODateEquals p c)) /\
+    (forall p c, T ODateGreaterThanEquals p c = lift2 orb (T ODateGreaterThan p c) (T ODateEquals p c)) /\
+    (forall p c, T ODateGreaterThanEquals p c = option_map negb (T ODateLessThan p c)) /\
+    (forall p c, T ODateGreaterThan p c = option_map negb (T ODateLessThanEquals p c)) /\
+    (forall p c, T ODateNotEquals p c = option_map negb (T ODateEquals p c)) /\
+    (forall p c, T ODateLessThan p c = T ODateGreaterThan c p /\ T ODateLessThanEquals p c = T ODateGreaterThanEquals c p) /\
+    (forall a b c, T ODateLessThan b a = Some true -> T ODateLessThan c b = Some true -> T ODateLessThan c a = Some true) /\
+    (forall a b c, T ODateLessThanEquals b a = Some true -> T ODateLessThanEquals c b = Some true ->
+                   T ODateLessThanEquals c a = Some true) /\
+    (forall a b c, T ODateLessThan b a = Some true -> T ODateLessThanEquals c b = Some true -> T ODateLessThan c a = Some true) /\
+    (forall a b c, T ODateLessThanEquals b a = Some true -> T ODateLessThan c b = Some true -> T ODateLessThan c a = Some true) /\
+    (forall a b, T ODateLessThanEquals b a = Some true -> T ODateLessThanEquals a b = Some true -> T ODateEquals b a = Some true) /\
+    (forall a, T ODateLessThan a a <> Some true) /\
+    (forall a b, T ODateLessThan b a = Some true -> T ODateLessThan a b = Some false) /\
+    (forall a b, comparable a b -> T ODateLessThanEquals b a = Some true \/ T ODateLessThanEquals a b = Some true) /\
+    (forall a, comparable a a -> T ODateLessThanEquals a a = Some true /\ T ODateEquals a a = Some true).
+Proof. intros fold. exact (ord_laws fold ODat). Qed.
+Print Assumptions C11_date_order_laws.
+
+Theorem C11_date_antisymmetric_typed :
+  forall (fold : str -> str) (a b : cval), has_fam FDate a = true -> has_fam FDate b = true ->
+    op_test fold ODateLessThanEquals b a = Some true -> op_test fold ODateLessThanEquals a b = Some true -> a = b.
+Proof. intros fold. exact (ord_le_antisym_typed fold ODat). Qed.
+Print Assumptions C11_date_antisymmetric_typed.
+
+(* ONE INSTANT, TWO SPELLINGS.  The model keeps of an aware datetime only its UTC instant:  aware_at wall off  is the datetime
+   whose wall clock reads `wall` in a zone `off` microseconds east of UTC, i.e. CDate true (wall - off).  Spellings of one
+   instant in different offsets are Equal (and <=, >=, not <, not >); in general they compare as their instants *)
+Theorem C11_date_same_instant :
+  forall (fold : str -> str) (w1 o1 w2 o2 : Z),
+    op_test fold ODateEquals (aware_at w2 o2) (aware_at w1 o1) = Some ((w1 - o1) =? (w2 - o2))%Z /\
+    op_test fold ODateLessThan (aware_at w2 o2) (aware_at w1 o1) = Some ((w1 - o1) <? (w2 - o2))%Z /\
+    op_test fold ODateLessThanEquals (aware_at w2 o2) (aware_at w1 o1) = Some ((w1 - o1) <=? (w2 - o2))%Z /\
+    ((w1 - o1 = w2 - o2)%Z ->
+       op_test fold ODateEquals (aware_at w2 o2) (aware_at w1 o1) = Some true /\
+       op_test fold ODateNotEquals (aware_at w2 o2) (aware_at w1 o1) = Some false /\
+       op_test fold ODateLessThan (aware_at w2 o2) (aware_at w1 o1) = Some false /\
+       op_test fold ODateGreaterThan (aware_at w2 o2) (aware_at w1 o1) = Some false /\
+       op_test fold ODateLessThanEquals (aware_at w2 o2) (aware_at w1 o1) = Some true /\
+       op_test fold ODateGreaterThanEquals (aware_at w2 o2) (aware_at w1 o1) = Some true).
+Proof. exact date_spellings. Qed.
+Print Assumptions C11_date_same_instant.
+(* a naive datetime is compared by its wall-clock reading; against an aware one: unordered and unequal *)
+Theorem C11_date_naive :
+  forall (fold : str -> str) (w1 w2 o2 : Z),
+    op_test fold ODateLessThan (naive_at w2) (naive_at w1) = Some (w1 <? w2)%Z /\
+    op_test fold ODateEquals (naive_at w2) (naive_at w1) = Some (w1 =? w2)%Z /\
+    op_test fold ODateLessThan (aware_at w2 o2) (naive_at w1) = None /\
+    op_test fold ODateLessThan (naive_at w1) (aware_at w2 o2) = None /\
+    op_test fold ODateEquals (aware_at w2 o2) (naive_at w1) = Some false.
+Proof. exact date_naive. Qed.
+Print Assumptions C11_date_naive.
+(* policy "2020-01-01T00:00:00Z", request 2020-01-01T01:00:00+01:00 (the same instant) and 2020-01-01T00:30:00+01:00 (earlier) *)
+Example C11_ex_date_same_instant :
+  (1577840400000000 - 3600000000 = 1577836800000000 - 0)%Z
+  /\ op_test id_fold ODateEquals (aware_at 1577836800000000 0) (aware_at 1577840400000000 3600000000) = Some true
+  /\ op_test id_fold ODateLessThan (aware_at 1577836800000000 0) (aware_at 1577840400000000 3600000000) = Some false
+  /\ op_test id_fold ODateLessThan (aware_at 1577836800000000 0) (aware_at 1577838600000000 3600000000) = Some true
+  /\ op_test id_fold ODateLessThan (aware_at 1577836800000000 0) (naive_at 1577838600000000) = None
+  /\ (exists a x y, aware_at 1577840400000000 3600000000 = CDate a x /\ aware_at 1577836800000000 0 = CDate a y).
+Proof.
+  repeat split; try (vm_compute; reflexivity). exists true. eexists. eexists. split; reflexivity.
+Qed.
+
+(* ---- text *)
+
+(* the five ...Equals operators are ONE function (Python ==), the four ...NotEquals operators another *)
+Theorem C11_equals_one_function :
+  forall (fold : str -> str) (o1 o2 : base_op) (p c : cval),
+    (is_equals o1 = true -> is_equals o2 = true -> op_test fold o1 p c = op_test fold o2 p c) /\
+    (is_not_equals o1 = true -> is_not_equals o2 = true -> op_test fold o1 p c = op_test fold o2 p c).
+Proof. exact equals_ops_coincide. Qed.
+Print Assumptions C11_equals_one_function.
+
+(* StringEquals is an EQUIVALENCE: reflexive on every value proper (anything but a missing key, an "other object", a
+   function object), symmetric and transitive on ALL values; on two texts it is equality code point by code point *)
+Theorem C11_string_equals_equivalence :
+  forall (fold : str -> str),
+    (forall v, v <> CAbsent /\ v <> COther /\ v <> CFn -> op_test fold OStringEquals v v = Some true) /\
+    (forall a b, op_test fold OStringEquals b a = Some true -> op_test fold OStringEquals a b = Some true) /\
+    (forall a b c, op_test fold OStringEquals b a = Some true -> op_test fold OStringEquals c b = Some true ->
+                   op_test fold OStringEquals c a = Some true) /\
+    (forall p c : str, op_test fold OStringEquals (CStr p) (CStr c) = Some (str_eqb c p) /\
+                       (op_test fold OStringEquals (CStr p) (CStr c) = Some true <-> c = p)).
+Proof. exact string_equals_equivalence. Qed.
+Print Assumptions C11_string_equals_equivalence.
+(* ... and so is every ...Equals operator *)
+Theorem C11_equals_equivalence :
+  forall (fold : str -> str) (o : base_op), is_equals o = true ->
+    (forall v, v <> CAbsent /\ v <> COther /\ v <> CFn -> op_test fold o v v = Some true) /\
+    (forall a b, op_test fold o b a = Some true -> op_test fold o a b = Some true) /\
+    (forall a b c, op_test fold o b a = Some true -> op_test fold o c b = Some true -> op_test fold o c a = Some true) /\
+    (forall p c : str, op_test fold o (CStr p) (CStr c) = Some (str_eqb c p) /\ (op_test fold o (CStr p) (CStr c) = Some true <-> c = p)).
+Proof. exact equals_equivalence. Qed.
+Print Assumptions C11_equals_equivalence.
+(* Equals holds exactly between values with one canonical form (True/False are 1/0, everything else is itself) *)
+Theorem C11_equals_canonical :
+  forall (fold : str -> str) (o : base_op) (p c : cval), is_equals o = true ->
+    (op_test fold o p c = Some true <-> exists n, canon c = Some n /\ canon p = Some n).
+Proof. exact equals_true_iff. Qed.
+Print Assumptions C11_equals_canonical.
+Example C11_ex_equals_equivalence :
+  is_equals OBinaryEquals = true /\ (CStr [97] <> CAbsent /\ CStr [97] <> COther /\ CStr [97] <> CFn)
+  /\ op_test id_fold OStringEquals (CStr [97]) (CStr [97]) = Some true
+  /\ op_test id_fold OStringEquals (CInt 1) (CBool true) = Some true /\ op_test id_fold OStringEquals (CBool true) (CInt 1) = Some true
+  /\ canon (CBool true) = Some (CInt 1%Z)
+  /\ op_test id_fold OStringEquals COther COther = Some false.     (* not reflexive on a non-value *)
+Proof. repeat split; try (vm_compute; reflexivity); discriminate. Qed.
+
+(* StringEqualsIgnoreCase is the equivalence INDUCED BY THE FOLD: defined on two texts only, True iff the folds agree;
+   reflexive on texts, symmetric and transitive on all values; it sees the request text only through its fold *)
+Theorem C11_ignorecase_equivalence :
+  forall (fold : str -> str),
+    (forall p c, op_test fold OStringEqualsIgnoreCase p c = Some true <->
+                 exists ps cs, p = CStr ps /\ c = CStr cs /\ fold cs = fold ps) /\
+    (forall s : str, op_test fold OStringEqualsIgnoreCase (CStr s) (CStr s) = Some true) /\
+    (forall a b, op_test fold OStringEqualsIgnoreCase b a = Some true -> op_test fold OStringEqualsIgnoreCase a b = Some true) /\
+    (forall a b c, op_test fold OStringEqualsIgnoreCase b a = Some true -> op_test fold OStringEqualsIgnoreCase c b = Some true ->
+                   op_test fold OStringEqualsIgnoreCase c a = Some true) /\
+    (forall p (cs cs' : str), fold cs = fold cs' ->
+                   op_test fold OStringEqualsIgnoreCase p (CStr cs) = op_test fold OStringEqualsIgnoreCase p (CStr cs')).
+Proof. exact ignorecase_equivalence. Qed.
+Print Assumptions C11_ignorecase_equivalence.
+
+(* COARSER than StringEquals, for every fold ... *)
+Theorem C11_ignorecase_coarser :
+  forall (fold : str -> str) (ps : str) (c : cval),
+    op_test fold OStringEquals (CStr ps) c = Some true -> op_test fold OStringEqualsIgnoreCase (CStr ps) c = Some true.
+Proof. exact ic_coarser. Qed.
+Print Assumptions C11_ignorecase_coarser.
+(* ... STRICTLY coarser as soon as the fold identifies two different texts, and equal to it exactly for an injective fold *)
+Theorem C11_ignorecase_strictly_coarser :
+  forall (fold : str -> str) (s t : str), s <> t -> fold s = fold t ->
+    op_test fold OStringEqualsIgnoreCase (CStr s) (CStr t) = Some true /\ op_test fold OStringEquals (CStr s) (CStr t) = Some false.
+Proof. exact ic_strictly_coarser. Qed.
+Print Assumptions C11_ignorecase_strictly_coarser.
+Theorem C11_ignorecase_is_equals_iff_injective :
+  forall (fold : str -> str),
+    (forall ps cs : str, op_test fold OStringEqualsIgnoreCase (CStr ps) (CStr cs) = op_test fold OStringEquals (CStr ps) (CStr cs))
+    <-> (forall s t : str, fold s = fold t -> s = t).
+Proof. exact ic_is_equals_iff_injective. Qed.
+Print Assumptions C11_ignorecase_is_equals_iff_injective.
+(* with the ASCII lower-casing as fold: "A" and "a" *)
+Example C11_ex_ignorecase_coarser :
+  [65] <> [97] /\ lower [65] = lower [97]
+  /\ op_test lower OStringEqualsIgnoreCase (CStr [65]) (CStr [97]) = Some true
+  /\ op_test lower OStringEquals (CStr [65]) (CStr [97]) = Some false
+  /\ op_test lower OStringEquals (CStr [97]) (CStr [97]) = Some true
+  /\ op_test lower OStringEquals (CStr [53]) (CInt 5) = Some false          (* "5" == 5: False ... *)
+  /\ op_test lower OStringEqualsIgnoreCase (CStr [53]) (CInt 5) = None.     (* ... but (5).casefold() raises *)
+Proof. repeat split; try (vm_compute; reflexivity); discriminate. Qed.
+
+(* StringLike IS the glob match of Glob/Glob.v (C08): defined on two texts only *)
+Theorem C11_like_is_glob :
+  forall (fold : str -> str) (p c : cval),
+    op_test fold OStringLike p c = Some true <->
+    exists ps cs, p = CStr ps /\ c = CStr cs /\ glob_spec N (tokens N N.eqb STAR QM ps) cs.
+Proof. exact like_true_iff. Qed.
+Print Assumptions C11_like_is_glob.
+Theorem C11_not_like_negation :
+  forall (fold : str -> str) (p c : cval),
+    op_test fold OStringNotLike p c = option_map negb (op_test fold OStringLike p c).
+Proof. exact not_like_negation. Qed.
+Print Assumptions C11_not_like_negation.
+Theorem C11_like_star :
+  forall (fold : str -> str) (cs : str), op_test fold OStringLike (CStr [STAR]) (CStr cs) = Some true.
+Proof. exact like_star. Qed.
+Print Assumptions C11_like_star.
+
+(* with a WILDCARD-FREE pattern StringLike coincides with StringEquals (same answer on every text; the same requests
+   satisfy both, whatever their type) -- and only then *)
+Theorem C11_like_literal_is_equals :
+  forall (fold : str -> str) (ps : str), no_wild N STAR QM ps ->
+    (forall cs : str, op_test fold OStringLike (CStr ps) (CStr cs) = op_test fold OStringEquals (CStr ps) (CStr cs)) /\
+    (forall c, op_test fold OStringLike (CStr ps) c = Some true <-> op_test fold OStringEquals (CStr ps) c = Some true).
+Proof. exact like_literal. Qed.
+Print Assumptions C11_like_literal_is_equals.
+Theorem C11_like_is_equals_iff_literal :
+  forall (fold : str -> str) (ps : str),
+    (forall cs : str, op_test fold OStringLike (CStr ps) (CStr cs) = op_test fold OStringEquals (CStr ps) (CStr cs))
+    <-> no_wild N STAR QM ps.
+Proof. exact like_equals_iff_literal. Qed.
+Print Assumptions C11_like_is_equals_iff_literal.
+(* "a.c" is wildcard-free (the dot is literal); "a?c" is not: it matches "aac" which it does not equal *)
+Example C11_ex_like_literal :
+  no_wild N STAR QM [97; 46; 99]
+  /\ op_test id_fold OStringLike (CStr [97; 46; 99]) (CStr [97; 46; 99]) = Some true
+  /\ op_test id_fold OStringLike (CStr [97; 46; 99]) (CStr [97; 98; 99]) = Some false
+  /\ op_test id_fold OStringLike (CStr [97; 63; 99]) (CStr [97; 97; 99]) = Some true
+  /\ op_test id_fold OStringEquals (CStr [97; 63; 99]) (CStr [97; 97; 99]) = Some false.
+Proof.
+  split; [repeat constructor; discriminate|]. repeat split; vm_compute; reflexivity.
+Qed.
+
+(* the Arn operators ARE the String operators: ArnLike / ArnNotLike the case-sensitive glob match, ArnEquals / ArnNotEquals
+   plain equality of the two texts *)
+Theorem C11_arn_is_string :
+  forall (fold : str -> str) (p c : cval),
+    op_test fold OArnEquals p c = op_test fold OStringEquals p c /\
+    op_test fold OArnNotEquals p c = op_test fold OStringNotEquals p c /\
+    op_test fold OArnLike p c = op_test fold OStringLike p c /\
+    op_test fold OArnNotLike p c = op_test fold OStringNotLike p c.
+Proof. exact arn_is_string. Qed.
+Print Assumptions C11_arn_is_string.
+(* REFUTED: "ArnEquals and ArnLike behave identically" (the AWS wording).  ArnEquals does not read wildcards:
+   policy "a*", request "ab" -- ArnLike True, ArnEquals False.  The library answers the same (see the report). *)
+Theorem C11_arn_equals_is_like_refuted :
+  forall (fold : str -> str),
+    exists p c : str, op_test fold OArnLike (CStr p) (CStr c) = Some true /\ op_test fold OArnEquals (CStr p) (CStr c) = Some false.
+Proof. exact arn_equals_is_like_refuted. Qed.
+Print Assumptions C11_arn_equals_is_like_refuted.
+
+(* ---- networks *)
+
+(* IpAddress p c = "c is a subnet of p" (False across IP versions), NotIpAddress its negation: REFLEXIVE, TRANSITIVE (c
+   within p, p within q => c within q), ANTISYMMETRIC on networks with a legal prefix length -- an order by inclusion *)
+Theorem C11_ip_subnet_preorder :
+  forall (fold : str -> str),
+    (forall p c : net, op_test fold OIpAddress (CNet p) (CNet c) = Some (subnet_of c p) /\
+                       op_test fold ONotIpAddress (CNet p) (CNet c) = Some (negb (subnet_of c p))) /\
+    (forall p : net, op_test fold OIpAddress (CNet p) (CNet p) = Some true) /\
+    (forall a b c, op_test fold OIpAddress b a = Some true -> op_test fold OIpAddress c b = Some true ->
+                   op_test fold OIpAddress c a = Some true) /\
+    (forall p c : net, (Z.of_N (n_plen p) <= width (n_ver p))%Z -> (Z.of_N (n_plen c) <= width (n_ver c))%Z ->
+       op_test fold OIpAddress (CNet p) (CNet c) = Some true -> op_test fold OIpAddress (CNet c) (CNet p) = Some true -> c = p).
+Proof. exact ip_preorder. Qed.
+Print Assumptions C11_ip_subnet_preorder.
+Example C11_ex_ip_subnet_preorder :
+  op_test id_fold OIpAddress (CNet (net4 10 1 0 0 16)) (CNet (net4 10 1 2 0 24)) = Some true
+  /\ op_test id_fold OIpAddress (CNet (net4 10 0 0 0 8)) (CNet (net4 10 1 0 0 16)) = Some true
+  /\ op_test id_fold OIpAddress (CNet (net4 10 0 0 0 8)) (CNet (net4 10 1 2 0 24)) = Some true
+  /\ (Z.of_N (n_plen (net4 10 0 0 0 8)) <= width (n_ver (net4 10 0 0 0 8)))%Z
+  /\ op_test id_fold OIpAddress (CNet (net4 10 0 0 0 8)) (CNet (net4 10 0 0 0 8)) = Some true.
+Proof. repeat split; try (vm_compute; reflexivity). vm_compute. discriminate. Qed.
+
+(* all operands: the policy value decides -- a function object: undefined; a network: the subnet test, undefined when the
+   request value is not a network; anything else: False for BOTH operators *)
+Theorem C11_ip_all_operands :
+  forall (fold : str -> str) (p c : cval),
+    op_test fold OIpAddress p c =
+      match p with
+      | CFn => None
+      | CNet pn => match c with CNet cn => Some (subnet_of cn pn) | _ => None end
+      | _ => Some false
+      end /\
+    op_test fold ONotIpAddress p c =
+      match p with
+      | CFn => None
+      | CNet pn => match c with CNet cn => Some (negb (subnet_of cn pn)) | _ => None end
+      | _ => Some false
+      end.
+Proof. exact ip_full_sem. Qed.
+Print Assumptions C11_ip_all_operands.
+Theorem C11_not_ip_negation :
+  forall (fold : str -> str) (p : net) (c : cval),
+    op_test fold ONotIpAddress (CNet p) c = option_map negb (op_test fold OIpAddress (CNet p) c).
+Proof. exact not_ip_negation. Qed.
+Print Assumptions C11_not_ip_negation.
+
+(* 0.0.0.0/0 accepts every IPv4 network, ::/0 every IPv6 network; and a network accepting everything of its version IS /0 *)
+Theorem C11_ip_default_route :
+  forall (fold : str -> str),
+    (forall c : net, wf_net c -> n_ver c = V4 -> op_test fold OIpAddress (CNet (Net V4 0 0)) (CNet c) = Some true) /\
+    (forall c : net, wf_net c -> n_ver c = V6 -> op_test fold OIpAddress (CNet (Net V6 0 0)) (CNet c) = Some true) /\
+    (forall p : net, wf_net p ->
+       (forall c, wf_net c -> n_ver c = n_ver p -> op_test fold OIpAddress (CNet p) (CNet c) = Some true) ->
+       p = Net (n_ver p) 0 0).
+Proof. exact ip_default_route_all. Qed.
+Print Assumptions C11_ip_default_route.
+Example C11_ex_ip_default_route :
+  wf_net (net4 203 0 113 7 32) /\ n_ver (net4 203 0 113 7 32) = V4
+  /\ op_test id_fold OIpAddress (CNet (Net V4 0 0)) (CNet (net4 203 0 113 7 32)) = Some true
+  /\ op_test id_fold OIpAddress (CNet (Net V6 0 0)) (CNet (net4 203 0 113 7 32)) = Some false    (* other version *)
+  /\ wf_net (Net V6 (42540766411282592856903984951653826560) 32)                                  (* 2001:db8::/32 *)
+  /\ op_test id_fold OIpAddress (CNet (Net V6 0 0)) (CNet (Net V6 (42540766411282592856903984951653826560) 32)) = Some true.
+Proof.
+  repeat split; try (vm_compute; reflexivity); try (vm_compute; discriminate).
+Qed.
+
+(* MONOTONE IN THE PREFIX LENGTH.  net_at v x l = the /l network containing the address x (mk_net of Net/Arith.v at the
+   width of the version = ip_network((x, l), strict=False)).  For l <= k the /k network lies within the /l network, so the
+   shorter policy prefix accepts every request the longer one accepts -- and, for l < k, strictly more *)
+Theorem C11_ip_prefix_monotone :
+  forall (fold : str -> str) (v : ipver) (x l k : N), l <= k -> k <= wbits v -> x < 2 ^ wbits v ->
+    wf_net (net_at v x l) /\ wf_net (net_at v x k) /\
+    in_net (Z.of_N x) (net_at v x k) /\
+    subnet_of (net_at v x k) (net_at v x l) = true /\
+    (forall c, op_test fold OIpAddress (CNet (net_at v x k)) c = Some true ->
+               op_test fold OIpAddress (CNet (net_at v x l)) c = Some true) /\
+    (l < k -> op_test fold OIpAddress (CNet (net_at v x l)) (CNet (net_at v x l)) = Some true /\
+              op_test fold OIpAddress (CNet (net_at v x k)) (CNet (net_at v x l)) = Some false).
+Proof. exact ip_prefix_laws. Qed.
+Print Assumptions C11_ip_prefix_monotone.
+(* every well-formed network is the net_at of its own address and prefix length *)
+Theorem C11_net_at_of_wf :
+  forall n : net, wf_net n -> net_at (n_ver n) (n_addr n) (n_plen n) = n.
+Proof. exact net_at_of_wf. Qed.
+Print Assumptions C11_net_at_of_wf.
+(* the address 10.1.2.3 at /8, /16, /24 *)
+Example C11_ex_ip_prefix_monotone :
+  let x := ((10 * 256 + 1) * 256 + 2) * 256 + 3 in
+  16 <= 24 /\ 24 <= wbits V4 /\ x < 2 ^ wbits V4
+  /\ net_at V4 x 24 = net4 10 1 2 0 24 /\ net_at V4 x 16 = net4 10 1 0 0 16 /\ net_at V4 x 8 = net4 10 0 0 0 8
+  /\ op_test id_fold OIpAddress (CNet (net_at V4 x 24)) (CNet (net4 10 1 2 128 25)) = Some true
+  /\ op_test id_fold OIpAddress (CNet (net_at V4 x 16)) (CNet (net4 10 1 2 128 25)) = Some true
+  /\ op_test id_fold OIpAddress (CNet (net_at V4 x 24)) (CNet (net_at V4 x 16)) = Some false.
+Proof. repeat split; try (vm_compute; reflexivity); vm_compute; discriminate. Qed.
+
+(* ---- Bool *)
+
+(* identity with the policy boolean: True exactly between a boolean and itself -- an equivalence on booleans; a request
+   value that is not a boolean (1, "true", None, a list) satisfies neither Bool:true nor Bool:false; a missing key raises *)
+Theorem C11_bool_equivalence :
+  forall (fold : str -> str),
+    (forall p c, op_test fold OBool p c = Some true <-> exists b, p = CBool b /\ c = CBool b) /\
+    (forall pb cb : bool, op_test fold OBool (CBool pb) (CBool cb) = Some (Bool.eqb cb pb)) /\
+    (forall b : bool, op_test fold OBool (CBool b) (CBool b) = Some true) /\
+    (forall a b, op_test fold OBool b a = Some true -> op_test fold OBool a b = Some true) /\
+    (forall a b c, op_test fold OBool b a = Some true -> op_test fold OBool c b = Some true -> op_test fold OBool c a = Some true) /\
+    (forall p c, p <> CFn -> c <> CAbsent -> (forall b, c <> CBool b) -> op_test fold OBool p c = Some false).
+Proof. exact bool_equivalence. Qed.
+Print Assumptions C11_bool_equivalence.
+Example C11_ex_bool_equivalence :
+  op_test id_fold OBool (CBool false) (CBool false) = Some true
+  /\ op_test id_fold OBool (CBool false) (CBool true) = Some false
+  /\ (CBool true <> CFn /\ CStr [116] <> CAbsent /\ forall b, CStr [116] <> CBool b)
+  /\ op_test id_fold OBool (CBool true) (CStr [116]) = Some false
+  /\ op_test id_fold OBool (CBool false) CNone = Some false
+  /\ op_test id_fold OBool (CBool false) CAbsent = None.
+Proof. repeat split; try (vm_compute; reflexivity); try discriminate. Qed.
+
+(* ---- all operators *)
+
+(* an operator and its negated form are defined on EXACTLY the same operands (ALL operands, no hypothesis) *)
+Theorem C11_dual_same_domain :
+  forall (fold : str -> str) (o o' : base_op) (p c : cval), neg_of o = Some o' ->
+    (op_test fold o p c = None <-> op_test fold o' p c = None).
+Proof. exact dual_same_domain. Qed.
+Print Assumptions C11_dual_same_domain.
+(* ... and the negated form IS the negation for every policy value, with ONE exception: IpAddress / NotIpAddress with a
+   policy value that is not a network, where the code answers False for both *)
+Theorem C11_negation_dual_all :
+  forall (fold : str -> str) (o o' : base_op) (p c : cval), neg_of o = Some o' ->
+    (o = OIpAddress -> p = CFn \/ exists n, p = CNet n) ->
+    op_test fold o' p c = option_map negb (op_test fold o p c).
+Proof. exact negation_dual_all. Qed.
+Print Assumptions C11_negation_dual_all.
+Theorem C11_ip_negation_not_network_refuted :
+  forall (fold : str -> str), exists p c, op_test fold OIpAddress p c = Some false /\ op_test fold ONotIpAddress p c = Some false.
+Proof. exact ip_negation_not_network_refuted. Qed.
+Print Assumptions C11_ip_negation_not_network_refuted.
+Example C11_ex_dual_same_domain :
+  neg_of OStringLike = Some OStringNotLike
+  /\ op_test id_fold OStringLike (CStr [97]) (CInt 5) = None /\ op_test id_fold OStringNotLike (CStr [97]) (CInt 5) = None
+  /\ op_test id_fold OStringLike (CStr [97]) (CStr [98]) = Some false /\ op_test id_fold OStringNotLike (CStr [97]) (CStr [98]) = Some true
+  /\ neg_of OIpAddress = Some ONotIpAddress
+  /\ op_test id_fold OIpAddress (CNet (net4 10 0 0 0 8)) (CStr [97]) = None
+  /\ op_test id_fold ONotIpAddress (CNet (net4 10 0 0 0 8)) (CStr [97]) = None.
+Proof. repeat split; vm_compute; reflexivity. Qed.
+
+(* WHEN IS THE ANSWER UNDEFINED (the lambda raises)?  Completely, per class of operators (op_class):
+     ...Equals / ...NotEquals (9 operators), Bool:   the policy value is a function object, or the key is missing
+     the 8 orderings:                                the operands are not comparable
+     IgnoreCase / Like (6 operators):                not (two texts)
+     IpAddress / NotIpAddress:                       a function object, or a policy network against a request value
+                                                     that is not a network
+     Null:                                           a function object only *)
+Theorem C11_none_characterised :
+  forall (fold : str -> str) (o : base_op) (p c : cval),
+    op_test fold o p c = None <->
+    match op_class o with
+    | KEq | KBool => p = CFn \/ c = CAbsent
+    | KOrd => ~ ((exists x y, as_int c = Some x /\ as_int p = Some y) \/ (exists a x y, c = CDate a x /\ p = CDate a y))
+    | KText => ~ exists ps cs, p = CStr ps /\ c = CStr cs
+    | KIp => p = CFn \/ ((exists pn, p = CNet pn) /\ ~ exists cn, c = CNet cn)
+    | KNull => p = CFn
+    end.
+Proof. exact none_characterised. Qed.
+Print Assumptions C11_none_characterised.
+(* the classes, operator by operator *)
+Example C11_ex_op_classes :
+  map op_class all_base_ops =
+  [KEq; KEq; KText; KText; KText; KText; KEq; KEq; KOrd; KOrd; KOrd; KOrd; KEq; KEq; KOrd; KOrd; KOrd; KOrd;
+   KBool; KEq; KIp; KIp; KEq; KText; KEq; KText; KNull].
+Proof. vm_compute. reflexivity. Qed.
+Example C11_ex_none_characterised :
+  op_test id_fold OStringEquals (CStr [97]) CAbsent = None /\ op_test id_fold OStringEquals CFn (CStr [97]) = None
+  /\ op_test id_fold OStringEquals (CStr [97]) COther = Some false
+  /\ op_test id_fold ODateLessThan (CDate true 0) (CDate false 0) = None
+  /\ op_test id_fold OStringNotEqualsIgnoreCase (CStr [97]) CNone = None
+  /\ op_test id_fold OIpAddress (CNet (net4 10 0 0 0 8)) (CStr [49]) = None
+  /\ op_test id_fold OIpAddress (CStr [49]) (CStr [49]) = Some false
+  /\ op_test id_fold ONull (CBool true) CAbsent = Some false /\ op_test id_fold ONull CFn CAbsent = None.
+Proof. repeat split; vm_compute; reflexivity. Qed.
+
+(* three-valued, and a function of the operands *)
+Theorem C11_three_valued :
+  forall (fold : str -> str) (o : base_op) (p c : cval),
+    op_test fold o p c = Some true \/ op_test fold o p c = Some false \/ op_test fold o p c = None.
+Proof. exact three_valued. Qed.
+Print Assumptions C11_three_valued.
